@@ -129,10 +129,42 @@ static void guard_sequences(unsigned len, uint64_t nrand) {
 	rec.notes[mode] = strf("all admissible operation sequences of length %u over 26 operations (construct locked on m0/m1, dont_lock, adopt_lock, default, lock, unlock, destroy, move-construct, move-assign, swap, self-move-assign, self-swap; two guards, two mutexes)", len);
 }
 
+// guards over a one-byte mutex at odd and even addresses (alignment 1, like frg::simple_spinlock behind a byte member): nothing about
+// a mutex' address may leak into what a guard believes
+struct ByteMutex {
+	uint8_t excl = 0, shared = 0;
+	static inline uint64_t locks = 0, unlocks = 0, bad = 0;
+	void lock() { if(excl || shared) bad++; excl = 1; locks++; }
+	void unlock() { if(!excl) bad++; excl = 0; unlocks++; }
+	void lock_shared() { if(excl) bad++; shared++; locks++; }
+	void unlock_shared() { if(!shared) bad++; else shared--; unlocks++; }
+};
+template<typename G, bool SH>
+static void byte_mutex_battery(const char *gname) {
+	struct Packed { uint8_t pad0; ByteMutex a; ByteMutex b; uint8_t pad1; ByteMutex c; } pk{};
+	static_assert(alignof(ByteMutex) == 1);
+	for(ByteMutex *m : {&pk.a, &pk.b, &pk.c}) {
+		ByteMutex::locks = ByteMutex::unlocks = ByteMutex::bad = 0;
+		auto held = [&] { return SH ? m->shared : m->excl; };
+		auto bad = [&](const char *what) { violation(std::string("C12:guard:") + gname + ":byte-mutex", strf("%s over a 1-byte mutex at address %%2 == %d: %s", gname, (int)((uintptr_t)m & 1), what)); };
+		{ G g(*m); if(!g.is_locked() || !g.protects(m) || held() != 1) bad("a locking constructor does not own the mutex"); }
+		if(held() != 0) bad("destruction of an owning guard did not release");
+		{ G g(frg::dont_lock, *m); if(g.is_locked() || g.protects(m) || held() != 0) bad("a deferred guard claims the lock"); }
+		if(ByteMutex::locks != 1 || ByteMutex::unlocks != 1) bad("destruction of a deferred guard called the mutex");
+		{ G g(frg::dont_lock, *m); g.lock(); if(!g.is_locked() || held() != 1) bad("lock() on a deferred guard"); g.unlock(); if(g.is_locked() || held() != 0) bad("unlock()"); g.lock(); }
+		if(held() != 0) bad("destruction after re-lock did not release");
+		{ if(SH) m->lock_shared(); else m->lock(); G g(frg::adopt_lock, *m); if(!g.is_locked() || !g.protects(m)) bad("an adopting guard does not own the mutex"); G h(std::move(g)); if(g.is_locked() || !h.is_locked() || !h.protects(m)) bad("move construction"); G k(frg::dont_lock, pk.b); swap(h, k); if(!k.is_locked() || !k.protects(m) || h.is_locked()) bad("swap"); }
+		if(held() != 0 || ByteMutex::bad) bad("unbalanced acquire/release calls");
+		if constexpr (!SH) { { auto g = frg::guard(m); if(!g.is_locked() || held() != 1) bad("frg::guard(&m)"); } if(held() != 0) bad("frg::guard(&m) destruction"); }
+		count("byte_mutex_guard_batteries");
+	}
+}
+
 // frg::guard() helpers and the QS lock_guard
 static void guard_helpers() {
 	if(!want_mode("guards:helpers")) return;
 	begin_case("guards:helpers", 0);
+	guarded("C12", [] { byte_mutex_battery<frg::unique_lock<ByteMutex>, false>("unique_lock"); byte_mutex_battery<frg::shared_lock<ByteMutex>, true>("shared_lock"); });
 	guarded("C12", [] {
 		LogMutex m;
 		{ auto g = frg::guard(&m); if(!g.is_locked() || m.excl != 1) violation("C12:guard:guard():not-locked", "frg::guard(&m) does not hold the mutex"); }
